@@ -18,7 +18,8 @@ func init() {
 			"R2 the global count is changed only by Add(delta) with delta a constant ±1 or derived from a size/deletion count read from the same table — never Store/Swap/CAS after construction; " +
 			"R3 the write paths take only segment locks, never nested; R4 EvictKeysAt is called with the inserted key as skip and clears a slot only behind k != skip / skip != 0; " +
 			"R5 every slot clear in UInt64Map is followed on all paths by size-- and backwardShiftDelete; R6 CompareAndSwap/CompareAndDelete write only behind the identity comparison under the write lock; " +
-			"R7 LimiterStore map accesses under its mutex; R8 the backward-shift move condition is the cyclic-interval predicate (decision table over three comparison atoms).",
+			"R7 LimiterStore map accesses under its mutex; R8 the backward-shift move condition is the cyclic-interval predicate (decision table over three comparison atoms); " +
+			"R9 the zero key is diverted before any slot access in every keyed operation; R10 every slot index comes from the one shared probe sequence (primaryIndex, +1 & mask, scan counters); R11 the size counter follows slot claims (claim ⇒ size++, update ⇒ no change, zero-key flag ⇒ size++).",
 		NotDecided: []string{
 			"the map abstraction of the open-addressing table itself (ghost entries, duplicate keys, wrap-around of probe chains, growth) — an inductive invariant over operation sequences",
 			"the numeric bound capacity + concurrent writers",
@@ -295,6 +296,9 @@ func runC16(c *Ctx) {
 
 	// R7 LimiterStore under mu
 	runLimiterStore(c)
+
+	// R9-R11 probe-sequence / zero-key / size discipline shared by all operations
+	runC16b(c)
 }
 
 // c16IsLoopBody: the block (re)computes the probe index — i.e. it is the head
